@@ -220,6 +220,34 @@ def mk_or(items):
     return ('or', tuple(sorted(out, key=key)))
 
 
+def dnf(f, limit: int = 256) -> list:
+    """Disjunctive normal form of a guard (already in negation normal form): list of conjunctions (each a formula built
+    by mk_and, FALSE ones dropped).  None when it would exceed `limit` conjunctions."""
+    tg = tag(f)
+    if tg == 'or':
+        out = []
+        for x in f[1]:
+            d = dnf(x, limit)
+            if d is None:
+                return None
+            out += d
+            if len(out) > limit:
+                return None
+        return out
+    if tg == 'and':
+        acc = [TRUE]
+        for x in f[1]:
+            d = dnf(x, limit)
+            if d is None:
+                return None
+            acc = [mk_and([a, b]) for a in acc for b in d]
+            acc = [a for a in acc if a != FALSE]
+            if len(acc) > limit:
+                return None
+        return acc
+    return [] if f == FALSE else [f]
+
+
 def _prop_atoms(f, acc):
     tg = tag(f)
     if tg in ('and', 'or'):
@@ -303,11 +331,21 @@ def mk_cmp(pyop: str, a, b):
         r = _const_cmp(op, a[1], b[1])
         if r is not None:
             return C(bool(r))
-    if op == 'is' and b == NONE and tag(a) in ('dict', 'list', 'tuple', 'set', 'new', 'lc', 'fstr', 'lam'):
-        return FALSE
+    if op == 'is' and b == NONE and tag(a) in ('dict', 'list', 'tuple', 'set', 'new', 'lc', 'fstr', 'lam', 'cmp', 'and',
+                                                'or', 'not', 'bin', 'mask', 'col', 'cols', 'rows', 'vals', 'index', 'record',
+                                                'columns', 'upd'):
+        return FALSE        # a value that certainly is an object (a frame, a Series, a container, ...)
     if op == 'in' and is_const(a) and tag(b) in ('list', 'tuple', 'set') \
             and all(is_const(x) for x in b[1]):
         return C(a[1] in [x[1] for x in b[1]])
+    if op == 'in' and is_const(a) and tag(b) == 'dict' and all(is_const(k) for k, _ in b[1]):
+        try:
+            return C(a[1] in {k[1]: None for k, _ in b[1]})
+        except TypeError:
+            pass
+    if op == 'in' and is_const(a) and tag(b) == 'mcall' and b[2] == 'keys' and tag(b[1]) == 'dict' \
+            and all(is_const(k) for k, _ in b[1][1]):
+        return C(a[1] in [k[1] for k, _ in b[1][1]])
     if op in ('eq', 'ne') and key(a) > key(b):
         a, b = b, a
     if op == 'ne':
@@ -440,6 +478,8 @@ def mk_sub(base, idx):
         return ('prm', (idx[1],))
     if tg == 'prm' and is_const(idx):
         return ('prm', base[1] + (idx[1],))
+    if tg == 'record' and is_const(idx) and isinstance(idx[1], int) and -len(base[2]) <= idx[1] < len(base[2]):
+        return base[2][idx[1]][1]
     if tg == 'dict' and is_const(idx):
         for k, v in base[1]:
             if k == idx:
